@@ -1,13 +1,14 @@
 CFG = {
     "modules": ["Parsley.Props.C17"],
     "theorems": [
-        "Parsley.C17.view_step_refines", "Parsley.C17.view_refines_copy", "Parsley.C17.wf_preserved",
+        "Parsley.C17.run_refines", "Parsley.C17.view_step_refines", "Parsley.C17.view_refines_copy",
+        "Parsley.C17.view_refines_copy_init", "Parsley.C17.wf_preserved",
         "Parsley.C17.no_byte_outside_window", "Parsley.C17.failed_request_keeps_cursor",
         "Parsley.C17.shared_refuses_mutation", "Parsley.C17.panics_only_where_copy_panics",
         "Parsley.C17.drop_orig_witness", "Parsley.C17.append_orig_witness",
-        "Parsley.C17.set_cursor_orig_witness",
+        "Parsley.C17.set_cursor_orig_witness", "Parsley.C17.scan_least", "Parsley.C17.bscan_greatest",
     ],
-    "n": {"quick": 4000, "thorough": 300000},
+    "n": {"quick": 12000, "thorough": 300000},
     "exhaustive": {"quick": True, "thorough": True},
     "rule": "exhaustive stream: every buffer over {a,b} up to 3 bytes (thorough 4) x every (start,size) window x "
             "(nested: every window of that window, buffers up to 2 / 3 bytes) x {shared, parents released} x every "
